@@ -9,16 +9,16 @@ prop(
     stages=[
         dict(run="^TestPropSources$",
              quick=dict(checks=40000, shards=16, timeout=600, shrinktime="8s"),
-             thorough=dict(checks=2400000, shards=16, timeout=7200, env={"VERIF_PQ_DEPTH": 4})),
+             thorough=dict(checks=1600000, shards=16, timeout=7200, env={"VERIF_PQ_DEPTH": 4})),
         dict(run="^TestPropTemplate$",
              quick=dict(checks=12000, shards=16, timeout=600, shrinktime="8s"),
-             thorough=dict(checks=800000, shards=16, timeout=7200, env={"VERIF_PQ_DEPTH": 4})),
+             thorough=dict(checks=600000, shards=16, timeout=7200, env={"VERIF_PQ_DEPTH": 4})),
         dict(run="^TestPropSourcesExt$",
              quick=dict(checks=24000, shards=16, timeout=600, shrinktime="8s"),
-             thorough=dict(checks=1600000, shards=16, timeout=7200, env={"VERIF_PQ_DEPTH": 4})),
+             thorough=dict(checks=1200000, shards=16, timeout=7200, env={"VERIF_PQ_DEPTH": 4})),
         dict(run="^TestPropTemplateExt$",
              quick=dict(checks=6000, shards=16, timeout=600, shrinktime="8s"),
-             thorough=dict(checks=400000, shards=16, timeout=7200, env={"VERIF_PQ_DEPTH": 4})),
+             thorough=dict(checks=300000, shards=16, timeout=7200, env={"VERIF_PQ_DEPTH": 4})),
     ],
     rule="one evaluation = one (expression, database) pair: a generated PromQL expression (typed grammar over metrics foo bar baz, "
          "labels a b c job instance (+__name__ in grouping lists), values \"1\" \"2\" \"\", regexes .* .+ 1|2; depth <= 3 quick / 4 thorough; "
